@@ -391,6 +391,12 @@ def model_create(ctx, a, res, rec):
     """create_schematic(list) produces the same circuit as the programmatic twin"""
     elm, sdl, circuit_translator, sch = _mods()
     data = C.dec(ctx.plan["recipes"][a["data"]["p"]]["v"])
+    for e in data.get("elements", []) if isinstance(data, dict) else []:
+        if isinstance(e, dict) and e.get("type") != "line" and "name" not in e:
+            # a symbol without a name: which name the front end gives it ('' today) and which one the class gives
+            # itself (Ground: '0') is not what "the equivalent programmatic construction" pins down - no verdict
+            rec["discarded"] = "anonymous-symbol"
+            return None
     try:
         twin = build_twin(data)
         exp = circuit_translator(twin)
